@@ -87,21 +87,21 @@ Proof.
     intros x p H. specialize (Ha x p H). cbn in *. exact Ha. }
   assert (Hfb2 : forall v, In v sc \/ In v (fnames fl) -> v < bound).
   { intros v [Hv|Hv]; [destruct (Hb v Hv) | destruct (Hfbd v Hv)]; assumption. }
-  assert (Hsc2 : forall v, In v sc -> exists c0 p, SyltSem.lookup e v = Some c0 /\ sget (fmt_var v) E1 = Some p /\ w_R W1 c0 p).
+  assert (Hsc2 : forall v, In v sc -> exists c0 p, SyltSem.lookup e v = Some c0 /\ sget (fmt_var v) E1 = Some p /\ w_R W1 c0 p true).
   { intros v Hv. destruct (H11 v Hv) as (c0 & p & A & B & C). exists c0, p.
     split; [exact A | split; [unfold E1; rewrite sget_sset_var by (pose proof (Hfb2 v (or_introl Hv)); lia); exact B | exact C]]. }
   assert (Hfs1 : fscope fl W e E1).
-  { intros f K Hin. destruct (Hfs f K Hin) as (c0 & p & d' & A & B & C). exists c0, p, d'.
+  { intros f K Hin HK. destruct (Hfs f K Hin HK) as (c0 & p & d' & A & B & C). exists c0, p, d'.
     split; [exact A | split; [|exact C]]. unfold E1. rewrite sget_sset_var; [exact B|].
     assert (f < bound) by (apply Hfb2; right; unfold fnames; apply in_map_iff; eexists; split; [|exact Hin]; reflexivity). lia. }
-  assert (Hfl2 : forall f K, In (f, K) fl ->
+  assert (Hfl2 : forall f K, In (f, K) fl -> K <> KP ->
             exists c0 p d', SyltSem.lookup e f = Some c0 /\ sget (fmt_var f) E1 = Some p /\ w_F W1 c0 p d' /\ dkind d' = K).
-  { intros f K Hin. destruct (Hfs1 f K Hin) as (c0 & p & d' & A & B & C & D & _). exists c0, p, d'.
+  { intros f K Hin HK. destruct (Hfs1 f K Hin HK) as (c0 & p & d' & A & B & C & D & _). exists c0, p, d'.
     destruct Hs1 as (_ & HF & _). auto. }
   assert (Htm2 : forall t0 p, bound <= t0 -> sget (fmt_var t0) E1 = Some p -> not_user W1 p).
   { intros t0 p Hbt0 Hq. unfold E1 in Hq. destruct (N.eq_dec t0 t) as [->|Hne].
     - rewrite sget_sset_same in Hq. inversion Hq; subst p. split.
-      + intros c0 Hr. destruct (H1 c0 _ Hr) as (_ & _ & _ & Hlt). lia.
+      + intros c0 b Hr. destruct (H1 c0 _ b Hr) as (_ & _ & _ & Hlt). lia.
       + intros c0 d0 Hf. destruct (H6 c0 _ d0 Hf) as (_ & _ & Hlt & _). lia.
     - rewrite sget_sset_var in Hq by exact Hne. exact (H14 t0 p Hbt0 Hq). }
   assert (Hstatic : fstatic pv sv bound u d).
@@ -121,7 +121,7 @@ Proof.
     - apply (wf_V _ _ Hwf1).
     - apply (wf_inj _ _ Hwf1). }
   split.
-  { intros f K Hin. destruct (Hfs1 f K Hin) as (c0 & p & d' & A & B & C & D & F). exists c0, p, d'.
+  { intros f K Hin HK. destruct (Hfs1 f K Hin HK) as (c0 & p & d' & A & B & C & D & F). exists c0, p, d'.
     split; [exact A | split; [exact B | split; [exact C | split; [exact D | left; exact F]]]]. }
   exists (world_addD W1 d). split.
   { destruct Hs1 as (A & B & C & D & F). unfold wsub, world_addD. cbn.
@@ -137,7 +137,7 @@ Proof.
   - exact Ht.
   - apply linv_lua_def. exact Hli.
   - constructor; cbn [world_addD w_R w_F w_D w_P w_pc s_newclos SyltSem.cells SyltSem.clos].
-    + intros c0 p Hr. destruct (H1 c0 p Hr) as (y & A & B & C). exists y.
+    + intros c0 p b Hr. destruct (H1 c0 p b Hr) as (y & A & B & C). exists y.
       split; [exact A|]. split; [rewrite Hold by exact C; exact B | rewrite Hnc2; lia].
     + exact H2.
     + exact H3.
